@@ -47,6 +47,10 @@ type UnitSpec struct {
 	HardTo    string            `json:"hard_to"`
 	Fallback  []string          `json:"fallback"`
 	Replay    string            `json:"replay"` // "native" (default for sequential) | "engine" | "none"
+	// Validate: "" = sampled paths must produce the same event sequence natively; "verdict" = only the
+	// verdicts are compared (every native assertion holds, same kind of end): for units whose event
+	// sequence legitimately depends on Go's randomised map iteration order inside the code under test
+	Validate string `json:"validate"`
 	Quick     TierSpec          `json:"quick"`
 	Thorough  TierSpec          `json:"thorough"`
 	Reach     []string          `json:"reach"` // labels that must be reached (vacuity guard)
@@ -128,6 +132,7 @@ func cmdCheck(args []string) int {
 	}
 	seed := envInt("VERIF_SEED", 1)
 	sx.CrossCheck = os.Getenv("GOSMT_CROSSCHECK") == "1"
+	sx.DebugUnsupStack = os.Getenv("GOSMT_UNSUP_STACK") == "1"
 	if *verbose {
 		sx.Progress = 5 * time.Second
 		sx.DebugSlow = time.Duration(envInt("GOSMT_SLOW_MS", 3000)) * time.Millisecond
